@@ -571,6 +571,7 @@ func segsOf(v ssa.Value, depth int) ([]kseg, string) {
 	if depth > 6 {
 		return nil, "construction too deep"
 	}
+	v = stripCT(v)
 	switch x := v.(type) {
 	case *ssa.Const:
 		if x.Value == nil {
@@ -656,7 +657,66 @@ func segsOf(v ssa.Value, depth int) ([]kseg, string) {
 			}
 			return out, ""
 		}
+	case *ssa.Phi:
+		// alternatives that extend each other (if X != nil { p = append(p, X...) }): the longest one
+		var best []kseg
+		for _, e := range x.Edges {
+			sg, why := segsOf(e, depth+1)
+			if why != "" {
+				return nil, why
+			}
+			if len(sg) > len(best) {
+				best, sg = sg, best
+			}
+			for i := range sg {
+				if sg[i] != best[i] && !(sg[i].whole != nil && best[i].whole != nil && sameBytes(sg[i].whole, best[i].whole)) {
+					return nil, "alternative constructions that do not extend each other"
+				}
+			}
+		}
+		return best, ""
 	case *ssa.Call:
+		// a repository helper that returns a concatenation of its parameters (concat)
+		if g := x.Call.StaticCallee(); g != nil && inRepo(g) && len(g.Blocks) > 0 && depth < 4 {
+			rets := engine.Returns(g)
+			if len(rets) == 1 && len(rets[0].Results) == 1 {
+				inner, why := segsOf(resultValue(rets[0], 0), depth+1)
+				if why != "" {
+					return nil, why
+				}
+				var out []kseg
+				for _, sg := range inner {
+					v := sg.whole
+					if v == nil {
+						v = sg.b
+					}
+					pi := -1
+					for i, p := range g.Params {
+						if ssa.Value(p) == v {
+							pi = i
+						}
+					}
+					if pi < 0 || pi >= len(x.Call.Args) {
+						out = append(out, sg)
+						continue
+					}
+					if sg.whole == nil {
+						out = append(out, kseg{b: stripConv(x.Call.Args[pi])})
+						continue
+					}
+					arg := x.Call.Args[pi]
+					if nilConst(arg) {
+						continue
+					}
+					sub, why := segsOf(arg, depth+1)
+					if why != "" {
+						return nil, why
+					}
+					out = append(out, sub...)
+				}
+				return out, ""
+			}
+		}
 		if b, ok := x.Call.Value.(*ssa.Builtin); ok && b.Name() == "append" {
 			base, why := segsOf(x.Call.Args[0], depth+1)
 			if why != "" {
